@@ -38,7 +38,7 @@ class _Undefined:
 UNDEFINED = _Undefined()
 
 
-RE_INDEX = re.compile(r"-?[0-9]+")
+RE_INDEX = re.compile(r"0|-?[1-9][0-9]*")
 
 
 class JSONPointer:
